@@ -82,12 +82,31 @@ def r1_helpers(program, rep):
     if len(rets) != 1:
         raise AnalysisError("align: expected one return")
     node = fl.cfg.node_of(rets[0])
-    res = fl.sym(rets[0].value, node)
+    # (through the value term of the result, so that temporaries and
+    # divmod(...) read like the // they stand for)
+    from ..terms import reify as _reify, plain as _plain
+    try:
+        TA = Terms(fn)
+        e_ = _reify(_plain(TA.term(rets[0].value,
+                                   TA.cfg.node_of(rets[0]))))
+        for n_ in ast.walk(e_):
+            for c_ in ast.iter_child_nodes(n_):
+                c_._parent = n_
+        ast.fix_missing_locations(e_)
+        res = fl.sym(e_, fl.cfg.entry)
+    except AnalysisError:
+        res = fl.sym(rets[0].value, node)
     V, A = Poly.atom(v), Poly.atom(al)
     mult = bool(res.t) and all(al in m for m in res.t if m != ()) and \
         () not in res.t
     rep.check(mult, "C05-R1", inst, "align returns alignment * <integer>",
               construct="align multiple %r" % (res,), node=fn)
+    import re as _re
+    if any(_re.match(r"^[A-Za-z_][\w.]*[@#]\d+$", a_) for m_ in res.t
+           for a_ in m_):
+        raise AnalysisError("align: the value returned (%r) is computed "
+                            "through something these rules do not read" %
+                            (res,))
     ok = fl.prove(node, [le(V, res), le(res, V + A - 1)], use_facts=False)
     rep.check(ok, "C05-R1", inst, "value <= align(value, alignment) <= value "
               "+ alignment - 1 for every alignment >= 1",
